@@ -1,6 +1,7 @@
 package props
 
 import (
+	"go/token"
 	"go/types"
 	"sort"
 	"strings"
@@ -19,7 +20,8 @@ func runC08Gaps2(c *eng.Ctx) {
 	c08g2InmemCopy(c)
 	c08g2InmemList(c)
 	c08g2ListRecord(c)
-	c08g2Caps(c)
+	c08g2Caps(c, "C08.7")
+	raftListRecordsKept(c, "C08.2")
 	c08g2Registered(c)
 	c08g2CacheOwner(c)
 	cacheLruUnderKeyLock(c, "C08.5")
@@ -441,8 +443,8 @@ func c08g2ListRecord(c *eng.Ctx) {
 // the state machine's index: with no open transaction the former is MaxUint64,
 // and a batch being applied concurrently has recorded writes above the state
 // machine's index which a transaction started before that batch still needs.
-func c08g2Caps(c *eng.Ctx) {
-	c.Clause("R5", "C08.7")
+func c08g2Caps(c *eng.Ctx, clause string) {
+	c.Clause("R5", clause)
 	n := 0
 	// the state machine's index: fsm.LatestState().Index, read directly or returned (on every path) by
 	// a function literal / function of the package that is called for it
@@ -505,11 +507,174 @@ func c08g2Caps(c *eng.Ctx) {
 		check(s.Fn, s.Call, args[len(args)-1], "argument of clearOldEntries")
 	}
 	if f := c.Fn("raft.(*RaftBackend).applyLog"); f != nil {
-		for _, st := range eng.Stores(f, `^command\.LowestActiveIndex$`) {
-			check(f, st, st.Val, "LogData.LowestActiveIndex shipped by applyLog")
+		fv := c.P.Field("raft.LogData.LowestActiveIndex")
+		isBoundStore := func(in ssa.Instruction) bool {
+			st, ok := in.(*ssa.Store)
+			if !ok {
+				return false
+			}
+			fa, ok := st.Addr.(*ssa.FieldAddr)
+			return ok && fv != nil && eng.FieldVar(fa) == fv
 		}
+		var stores []ssa.Instruction
+		for _, in := range eng.Instrs(f, isBoundStore) {
+			stores = append(stores, in)
+			check(f, in, in.(*ssa.Store).Val, "LogData.LowestActiveIndex shipped by applyLog")
+		}
+		// ... and the cap is unconditional: whatever the caller put into the entry, the entry is
+		// serialised for raft only after applyLog itself stored a (capped, see above) bound into it.
+		// A bound a caller pre-computed (a transaction's commit) is MaxUint64 when that transaction is
+		// the only open one: shipped as it is, every replica drops its whole record.
+		c.Clause("R2", clause)
+		barriers := append([]ssa.Instruction{}, stores...)
+		// one level of helper: a function of the package every normal return of which lies behind such a store
+		for _, cl := range eng.Calls(f, `^raft\.`) {
+			g := cl.Common().StaticCallee()
+			if g == nil || g == f || len(g.Blocks) == 0 || !eng.InPkg(g, "raft") {
+				continue
+			}
+			gs := eng.Instrs(g, isBoundStore)
+			if len(gs) == 0 {
+				continue
+			}
+			if eng.Reach(eng.Query{Fn: g, Barriers: gs, Target: nfIsNormalReturn}) == nil {
+				barriers = append(barriers, cl)
+				for _, in := range gs {
+					check(g, in, in.(*ssa.Store).Val, "LogData.LowestActiveIndex shipped by applyLog")
+				}
+			}
+		}
+		ship := instrsOf(eng.Calls(f, `protobuf/proto\.Marshal$|hashicorp/raft\.Raft\)\.(Apply|ApplyLog)$|go-raftchunking\.ChunkingApply$`))
+		site := "entry shipped only with the bound applyLog capped"
+		if c.Floor(f, "stores of the shipped LowestActiveIndex", len(barriers), 1) && c.Floor(f, "serialisation / raft apply of the entry", len(ship), 2) {
+			if h := eng.Reach(eng.Query{Fn: f, Barriers: barriers, Target: eng.IsTarget(ship)}); h != nil {
+				c.Violation(f, site, h.Instr.Pos(), "the log entry can be serialised and handed to raft without applyLog having stored the capped bound into it: a bound the caller pre-computed is shipped uncapped (MaxUint64 when the committing transaction is the only open one) and every replica drops its whole record of recent writes", h.Witness)
+			} else {
+				c.OK(f, site, stores[0].Pos(), "every path to proto.Marshal / raft.Apply passes the store of min(…, state machine index)")
+			}
+		}
+		c.Clause("R5", clause)
 	}
 	c.Floor(nil, "node-local trim bounds", n, 3)
+}
+
+// raftListRecordsKept (R2/R6, shared by C08.2 and C13.2): a raft transaction
+// keeps one verification entry per listed (prefix, after) page in
+// t.lists[prefix][after]; all of them are shipped at commit. The per-prefix
+// map is (re)created only when there is none for the prefix yet, the per-page
+// map only when there is none for the page yet - a fresh map anywhere else
+// drops the entries of pages listed earlier, which are then not verified.
+func raftListRecordsKept(c *eng.Ctx, clause string) {
+	f := c.Fn("raft.(*RaftTransaction).ListPage")
+	fv := c.P.Field("raft.RaftTransaction.lists")
+	if f == nil {
+		return
+	}
+	if fv == nil {
+		c.Unresolved("raft.RaftTransaction.lists")
+		return
+	}
+	isOuter := func(v ssa.Value) bool { // the value of t.lists
+		ld, ok := v.(*ssa.UnOp)
+		if !ok || ld.Op != token.MUL {
+			return false
+		}
+		fa, ok := ld.X.(*ssa.FieldAddr)
+		return ok && eng.FieldVar(fa) == fv
+	}
+	isInner := func(v ssa.Value) bool { // t.lists[x]
+		lk, ok := v.(*ssa.Lookup)
+		return ok && isOuter(lk.X)
+	}
+	isPage := func(v ssa.Value) bool { // t.lists[x][y]
+		lk, ok := v.(*ssa.Lookup)
+		if !ok {
+			return false
+		}
+		x := lk.X
+		if ex, isEx := x.(*ssa.Extract); isEx && ex.Index == 0 {
+			x = ex.Tuple
+		}
+		return isInner(x)
+	}
+	// edges on which a lookup selected by `which` found nothing (comma-ok false, or compared equal to nil)
+	missEdges := func(g *ssa.Function, which func(ssa.Value) bool) []eng.Edge {
+		var out []eng.Edge
+		for _, b := range g.Blocks {
+			ifi := eng.IfOf(b)
+			if ifi == nil {
+				continue
+			}
+			v := eng.Normalize(ifi.Cond).Val
+			if ex, ok := v.(*ssa.Extract); ok && ex.Index == 1 && which(ex.Tuple) {
+				out = append(out, eng.BoolEdges(v, false)...)
+				continue
+			}
+			if bo, ok := v.(*ssa.BinOp); ok && (bo.Op == token.EQL || bo.Op == token.NEQ) {
+				for _, side := range []ssa.Value{bo.X, bo.Y} {
+					if which(side) {
+						out = append(out, eng.ValueNilEdges(side, true)...)
+					}
+				}
+			}
+		}
+		return out
+	}
+	isFresh := func(v ssa.Value) bool { _, ok := v.(*ssa.MakeMap); return ok }
+	var newPrefix, newPage []ssa.Instruction
+	for _, in := range eng.Instrs(f, func(in ssa.Instruction) bool { _, ok := in.(*ssa.MapUpdate); return ok }) {
+		mu := in.(*ssa.MapUpdate)
+		switch {
+		case isOuter(mu.Map):
+			newPrefix = append(newPrefix, in) // any assignment of t.lists[prefix] replaces the pages kept for it
+		case isInner(mu.Map) && isFresh(mu.Value):
+			newPage = append(newPage, in)
+		}
+	}
+	c.Clause("R2", clause)
+	noPrefix := eng.Guard{Desc: "no map kept for the prefix yet (lookup of t.lists[prefix] missed)", Edges: missEdges(f, isInner)}
+	noPage := eng.Guard{Desc: "no map kept for the page yet (lookup of t.lists[prefix][after] missed)", Edges: missEdges(f, isPage)}
+	if c.Floor(f, "creation of the per-prefix map of kept list verifications", len(newPrefix), 1) {
+		c.Cut(f, "kept list verifications of a prefix replaced by a fresh map", newPrefix, noPrefix, nil)
+	}
+	if c.Floor(f, "creation of the per-page map of kept list verifications", len(newPage), 1) {
+		c.Cut(f, "kept list verification of a page replaced by a fresh map", newPage, eng.Or(noPrefix, noPage), nil)
+	}
+	// who else touches the record
+	c.Clause("R6", clause)
+	for _, w := range c.P.FieldWriters(fv) {
+		switch n := eng.FuncName(eng.TopFunc(w.Fn)); n {
+		case "raft.(*RaftBackend).newTransaction", "raft.(*RaftTransaction).Commit", "raft.(*RaftTransaction).Rollback":
+			c.OK(w.Fn, "writer{RaftTransaction.lists}", w.Store.Pos(), "created with the transaction / cleared when it finished")
+		default:
+			c.Violation(w.Fn, "writer{RaftTransaction.lists}", w.Store.Pos(), n+" replaces the transaction's record of listings", nil)
+		}
+	}
+	nUpd := 0
+	for _, g := range c.P.Funcs {
+		if !eng.InPkg(g, "raft") {
+			continue
+		}
+		for _, in := range eng.Instrs(g, func(in ssa.Instruction) bool {
+			switch x := in.(type) {
+			case *ssa.MapUpdate:
+				return isOuter(x.Map) || isInner(x.Map)
+			case ssa.CallInstruction:
+				if bi, ok := x.Common().Value.(*ssa.Builtin); ok && (bi.Name() == "delete" || bi.Name() == "clear") && len(x.Common().Args) > 0 {
+					return isOuter(x.Common().Args[0]) || isInner(x.Common().Args[0])
+				}
+			}
+			return false
+		}) {
+			nUpd++
+			if eng.TopFunc(g) == f {
+				c.OK(g, "mapwriter{RaftTransaction.lists}", in.Pos(), "ListPage keeps the record")
+			} else {
+				c.Violation(g, "mapwriter{RaftTransaction.lists}", in.Pos(), "the per-prefix / per-page maps of kept list verifications are modified outside ListPage", nil)
+			}
+		}
+	}
+	c.Floor(nil, "updates of the per-prefix / per-page maps", nUpd, 3)
 }
 
 // c08g2Registered (C08.7): bounds are computed from the registered start
